@@ -270,7 +270,13 @@ class MessageBase:
             _LOGGER.exception("%s < %s", self._pkt, f"{err.__class__.__name__}({err})")
             raise exc.PacketInvalid("Bad packet") from err
 
-        except (AttributeError, LookupError, TypeError, ValueError) as err:  # TODO: dev
+        except (
+            ArithmeticError,  # e.g. a date out of range (313E)
+            AttributeError,
+            LookupError,
+            TypeError,
+            ValueError,
+        ) as err:  # TODO: dev
             _LOGGER.exception(
                 "%s < Coding error: %s", self._pkt, f"{err.__class__.__name__}({err})"
             )
